@@ -4,7 +4,7 @@ use crate::{
     error::{assert_finite, assert_limited_precision, panic_power_negative_base},
     fbig::FBig,
     repr::{Context, Repr, Word},
-    round::{Round, Rounded},
+    round::{Round, Rounded, Rounding},
 };
 use dashu_base::{AbsOrd, Approximation::*, BitTest, DivRemEuclid, EstimatedLog2, Sign};
 use dashu_int::IBig;
@@ -79,6 +79,16 @@ impl<R: Round, const B: Word> FBig<R, B> {
 
 // TODO: give the exact formulation of required guard bits
 
+/// exp and log of a rational argument (other than exp(0) and log(1)) are irrational: a result that
+/// happens to fit the precision after the last rounding must still be reported as inexact.
+#[inline]
+pub(crate) fn never_exact<T>(res: Rounded<T>) -> Rounded<T> {
+    match res {
+        Exact(v) => Inexact(v, Rounding::NoOp),
+        inexact => inexact,
+    }
+}
+
 impl<R: Round> Context<R> {
     /// Raise the floating point number to an integer power under this context.
     ///
@@ -111,8 +121,9 @@ impl<R: Round> Context<R> {
 
             let guard_bits = self.precision.bit_len() * 2; // heuristic
             let rev_context = Context::<R::Reverse>::new(self.precision + guard_bits);
-            let pow = rev_context.powi(base, exp.into()).value();
-            let inv = rev_context.repr_div(Repr::one(), pow.repr);
+            // keep the inexactness of the power: the inverse of a rounded power is not exact
+            let pow = rev_context.powi(base, exp.into());
+            let inv = pow.and_then(|v| rev_context.repr_div(Repr::one(), v.repr));
             let repr = inv.and_then(|v| self.repr_round(v));
             return repr.map(|v| FBig::new(v, *self));
         }
@@ -315,7 +326,7 @@ impl<R: Round> Context<R> {
             k += 1;
         }
 
-        if no_scaling {
+        let res = if no_scaling {
             sum.with_precision(self.precision)
         } else if minus_one {
             // add extra digits to compensate for the subtraction
@@ -326,6 +337,7 @@ impl<R: Round> Context<R> {
         } else {
             self.powi(sum.repr(), Repr::<B>::BASE.pow(n).into())
                 .map(|v| v << s)
-        }
+        };
+        never_exact(res)
     }
 }
